@@ -617,6 +617,7 @@ func (s *BaseNodeService) reinitDKG(message storage.Message) error {
 	}
 
 	operations := make([]*types.Operation, 0)
+	var replayClock time.Time
 	for _, msg := range req.Messages {
 		if fsm.Event(msg.Event) == sif.EventSigningStart {
 			break
@@ -636,7 +637,20 @@ func (s *BaseNodeService) reinitDKG(message storage.Message) error {
 		// maximum inconvenience, and restart of the procedure,
 		// which is not very scary compared to the loss of compatibility.
 		if msg.RecipientAddr == "" || msg.RecipientAddr == s.GetUsername() {
-			skip := isPatchMessage(msg) && !s.GetSkipCommKeysVerification()
+			patch := isPatchMessage(msg)
+			if patch {
+				// nothing vouches for the time an unsigned self-confirmation claims (the round's
+				// deadlines are judged against it): it counts as made when the last verified
+				// message of the replay was made
+				var dealReq requests.DKGProposalDealConfirmationRequest
+				if json.Unmarshal(msg.Data, &dealReq) == nil {
+					dealReq.CreatedAt = replayClock
+					if data, err := json.Marshal(dealReq); err == nil {
+						msg.Data = data
+					}
+				}
+			}
+			skip := patch && !s.GetSkipCommKeysVerification()
 			if skip {
 				s.SetSkipCommKeysVerification(true)
 			}
@@ -646,6 +660,11 @@ func (s *BaseNodeService) reinitDKG(message storage.Message) error {
 			}
 			if err != nil {
 				s.Logger.Log("failed to process operation:  %w", err)
+			} else if !patch {
+				var stamp struct{ CreatedAt time.Time }
+				if json.Unmarshal(msg.Data, &stamp) == nil && stamp.CreatedAt.After(replayClock) {
+					replayClock = stamp.CreatedAt
+				}
 			}
 			if operation != nil {
 				operations = append(operations, operation)
